@@ -1,6 +1,7 @@
 package main
 
 import (
+	"go/constant"
 	"fmt"
 	"go/token"
 	"go/types"
@@ -125,6 +126,173 @@ func runC10(c *Ctx) {
 	c.rule("R10.8", "termination: no feasible advance-free cycle; no feasible cycle at end of input")
 	c.floor(8)
 	r10_8(c, lf)
+	c.rule("R10.10", "line/column accounting of the advance primitive, evaluated for every value of the byte being left: Line+1 and column reset exactly when that byte is '\\n' (the byte that sets the after-newline flag), Column+1 on every advancing path")
+	c.floor(3)
+	r10_10(c, lf, la)
+}
+
+// R10.10: the advance primitive is folded once per value of the current byte (the byte being left). Conditions that
+// do not depend on that byte are followed both ways.
+func r10_10(c *Ctx, lf *lexFacts, la *lexAnchors) {
+	adv := lf.advance
+	if adv == nil || lf.curFld == nil {
+		c.unres("advance primitive", token.NoPos, "not found")
+		return
+	}
+	// the store that replaces the current byte: loads after it see the new byte
+	var curStore []ssa.Instruction
+	allInstrs(adv, func(_ *ssa.BasicBlock, _ int, in ssa.Instruction) {
+		if st, ok := in.(*ssa.Store); ok {
+			if _, ok := isFieldAddr(st.Addr, lf.curFld); ok {
+				curStore = append(curStore, st)
+			}
+		}
+	})
+	oldByte := func(v ssa.Value) bool {
+		ld, ok := isFieldLoad(v, lf.curFld)
+		if !ok {
+			return false
+		}
+		_ = ld
+		in, ok := v.(ssa.Instruction)
+		if !ok {
+			return false
+		}
+		for _, st := range curStore {
+			if instrReachableAfter(st, in) {
+				return false
+			}
+		}
+		return true
+	}
+	var evalV func(v ssa.Value, b byte) (constant.Value, bool)
+	evalV = func(v ssa.Value, b byte) (constant.Value, bool) {
+		v = unwrap(v)
+		if k, ok := v.(*ssa.Const); ok && k.Value != nil {
+			return k.Value, true
+		}
+		if oldByte(v) {
+			return constant.MakeInt64(int64(b)), true
+		}
+		switch x := v.(type) {
+		case *ssa.BinOp:
+			a, ok1 := evalV(x.X, b)
+			d, ok2 := evalV(x.Y, b)
+			if !ok1 || !ok2 {
+				return nil, false
+			}
+			switch x.Op {
+			case token.EQL, token.NEQ, token.LSS, token.LEQ, token.GTR, token.GEQ:
+				return constant.MakeBool(constant.Compare(a, x.Op, d)), true
+			}
+		case *ssa.UnOp:
+			if x.Op == token.NOT {
+				if a, ok := evalV(x.X, b); ok {
+					return constant.MakeBool(!constant.BoolVal(a)), true
+				}
+			}
+		case *ssa.Call:
+			if cal := x.Call.StaticCallee(); cal != nil && len(x.Call.Args) == 1 && cal.Pkg == adv.Pkg {
+				if a, ok := evalV(x.Call.Args[0], b); ok {
+					return foldFn(cal, []constant.Value{a})
+				}
+			}
+		}
+		return nil, false
+	}
+	reachable := func(b byte) map[*ssa.BasicBlock]bool {
+		seen := map[*ssa.BasicBlock]bool{}
+		var dfs func(blk *ssa.BasicBlock)
+		dfs = func(blk *ssa.BasicBlock) {
+			if seen[blk] {
+				return
+			}
+			seen[blk] = true
+			if iff := blockIf(blk); iff != nil {
+				if v, ok := evalV(iff.Cond, b); ok && v.Kind() == constant.Bool {
+					if constant.BoolVal(v) {
+						dfs(blk.Succs[0])
+					} else {
+						dfs(blk.Succs[1])
+					}
+					return
+				}
+			}
+			for _, s := range blk.Succs {
+				dfs(s)
+			}
+		}
+		dfs(adv.Blocks[0])
+		return seen
+	}
+	reach := make([]map[*ssa.BasicBlock]bool, 256)
+	for b := 0; b < 256; b++ {
+		reach[b] = reachable(byte(b))
+	}
+	setFor := func(blk *ssa.BasicBlock) bset {
+		var s bset
+		for b := 0; b < 256; b++ {
+			if reach[b][blk] {
+				s.add(byte(b))
+			}
+		}
+		return s
+	}
+	var all bset
+	for b := 0; b < 256; b++ {
+		all.add(byte(b))
+	}
+	nLine, nReset, nInc := 0, 0, 0
+	allInstrs(adv, func(blk *ssa.BasicBlock, _ int, in ssa.Instruction) {
+		st, ok := in.(*ssa.Store)
+		if !ok {
+			return
+		}
+		fa, ok := st.Addr.(*ssa.FieldAddr)
+		if !ok {
+			return
+		}
+		fld := fieldOfAddr(fa)
+		if fld != la.line && fld != la.col {
+			return
+		}
+		S := setFor(blk)
+		isIncOf := func(v ssa.Value, f *types.Var) bool {
+			bo, ok := v.(*ssa.BinOp)
+			if !ok || bo.Op != token.ADD {
+				return false
+			}
+			k, ok := constInt64(bo.Y)
+			if !ok || k != 1 {
+				return false
+			}
+			_, ok = isFieldLoad(bo.X, f)
+			return ok
+		}
+		switch {
+		case fld == la.line:
+			nLine++
+			key := fmt.Sprintf("%s: Line store #%d", adv.Name(), nLine)
+			if !isIncOf(st.Val, la.line) {
+				c.bad(key, st.Pos(), "Line is set to something other than Line+1")
+				return
+			}
+			c.check(S.count() == 1 && S.has('\n'), key, st.Pos(), "Line+1 exactly when the byte being left is '\\n'", fmt.Sprintf("Line is incremented when the byte being left is %s: it must be exactly '\\n' — the byte for which the after-newline flag is set — otherwise token lines and the line-break flag disagree (CR LF counts twice, a lone CR moves the line without a line break)", S))
+		case isIncOf(st.Val, la.col):
+			nInc++
+			key := fmt.Sprintf("%s: Column+1 #%d", adv.Name(), nInc)
+			c.check(S == all, key, st.Pos(), "on every advancing path, whatever byte is left", fmt.Sprintf("Column is incremented only when the byte being left is %s", S))
+		default:
+			nReset++
+			key := fmt.Sprintf("%s: Column reset #%d", adv.Name(), nReset)
+			k, isK := constInt64(st.Val)
+			okVal := isK && (k == 0 || k == -1)
+			c.check(okVal && S.count() == 1 && S.has('\n'), key, st.Pos(), "column restarts exactly after '\\n'", fmt.Sprintf("the column is reset (to %v) when the byte being left is %s: it must restart exactly after '\\n'", st.Val, S))
+		}
+	})
+	if nLine == 0 {
+		c.bad(adv.Name()+": Line accounting", adv.Pos(), "the advance primitive never increments Line")
+	}
 }
 
 // ---------------------------------------------------------------------------------------------
@@ -266,7 +434,100 @@ func r10_9(c *Ctx, lf *lexFacts, la *lexAnchors, t *tables) bool {
 					}
 				}
 			}
-			c.check(byPos, fmt.Sprintf("%s: end-of-input token #%d decided by position", fnName(f), n), call.Pos(), "constructed under a test of the cursor position against the input length", "the end-of-input token is chosen by the byte value 0 alone: a NUL byte inside the source is reported as end of input in the middle of the text (the parser stops there and the rest is ignored), and later requests return further tokens")
+			key := fmt.Sprintf("%s: end-of-input token #%d decided by position", fnName(f), n)
+			if !byPos {
+				c.bad(key, call.Pos(), "the end-of-input token is chosen by the byte value 0 alone: a NUL byte inside the source is reported as end of input in the middle of the text (the parser stops there and the rest is ignored), and later requests return further tokens")
+				return
+			}
+			// exactness: with position in [0, len(input)] (the cap), the token must be built exactly when
+			// position == len(input). The dominating comparisons are evaluated for position = len-1 (a real byte) and
+			// position = len (behind the last byte), with readPosition = position+1.
+			off := func(v ssa.Value, d int64) (int64, bool) { // value - len(input), given position - len(input) = d
+				k := int64(0)
+				for {
+					if bo, ok := v.(*ssa.BinOp); ok && (bo.Op == token.ADD || bo.Op == token.SUB) {
+						if kk, ok := constInt64(bo.Y); ok {
+							if bo.Op == token.ADD {
+								k += kk
+							} else {
+								k -= kk
+							}
+							v = bo.X
+							continue
+						}
+					}
+					break
+				}
+				if _, ok := isFieldLoad(v, la.pos); ok {
+					return d + k, true
+				}
+				if _, ok := isFieldLoad(v, la.rpos); ok {
+					return d + 1 + k, true
+				}
+				if lc, ok := isBuiltinCall(v, "len"); ok {
+					if _, ok := isFieldLoad(lc.Call.Args[0], la.input); ok {
+						return k, true
+					}
+				}
+				return 0, false
+			}
+			evalAt := func(d int64) (taken bool, known bool) {
+				taken, known = true, false
+				for _, ob := range f.Blocks {
+					iff := blockIf(ob)
+					if iff == nil {
+						continue
+					}
+					bo, ok := iff.Cond.(*ssa.BinOp)
+					if !ok {
+						continue
+					}
+					for i := range ob.Succs {
+						if !edgeDominates(ob, ob.Succs[i], b) {
+							continue
+						}
+						x, ok1 := off(bo.X, d)
+						y, ok2 := off(bo.Y, d)
+						if !ok1 || !ok2 {
+							continue
+						}
+						known = true
+						var v bool
+						switch bo.Op {
+						case token.GEQ:
+							v = x >= y
+						case token.GTR:
+							v = x > y
+						case token.LEQ:
+							v = x <= y
+						case token.LSS:
+							v = x < y
+						case token.EQL:
+							v = x == y
+						case token.NEQ:
+							v = x != y
+						default:
+							known = false
+						}
+						if (i == 0) != v {
+							taken = false
+						}
+					}
+				}
+				return
+			}
+			atEnd, k1 := evalAt(0)
+			atLast, k2 := evalAt(-1)
+			switch {
+			case !k1 || !k2:
+				c.ok(key, call.Pos(), "constructed under a test of the cursor position against the input length (through a helper; exactness not evaluated)")
+			case atEnd && !atLast:
+				c.ok(key, call.Pos(), "constructed exactly when position == len(input): evaluated for position = len-1 (not taken) and position = len (taken)")
+			case atLast:
+				c.bad(key, call.Pos(), "the position test also holds when the cursor is ON the last byte of the input (position = len(input)-1): a NUL that is the final byte is reported as end of input one byte early and never appears as a token")
+			default:
+				c.bad(key, call.Pos(), "the position test does not hold behind the last byte (position = len(input)): end of input is never reported")
+			}
 		})
 	}
 	if n == 0 {
